@@ -25,6 +25,15 @@
    newly created task records as its creator).  However a computation ends, no task is executing afterwards: the
    tasks of the later computation are created by that computation's own tasks only.
 
+   Retrievals: `retr` says how the top task's outcome is asked for.  <<"call">>: one synchronous call.  Otherwise
+   the task object is kept and asked several times - "value" (value(), raises the stored error), "error" (error(),
+   returns it; seen through format_error), "yield" (awaited by `yield`, only inside a task) - by the top-level
+   caller (outer = 0) or inside the body of the outer task (outer = 1; there the last retrieval is not caught and
+   travels on to the caller).  Every caught retrieval k is made in its own helper function site_k (frame
+   SiteBase + k).  The stored error keeps its glued traceback: EVERY retrieval shows its own site frame followed
+   by one frame per task level, in call order, ending at the raising frame - never frames of earlier retrieval
+   sites.
+
    Prescriptions (the property): the exception that reaches the caller has a traceback with one frame per task
    level, in call order, ending at the raising frame; format_asynq_stack() = creator chain, outermost first -
    exactly the computation's own tasks, nothing from an earlier computation.
@@ -35,6 +44,7 @@ EXTENDS Integers, Sequences, FiniteSets, TLC, Json, IOUtils
 EnvInt(n, dflt) == IF n \in DOMAIN IOEnv THEN atoi(IOEnv[n]) ELSE dflt
 MaxD == EnvInt("MAXD", 4)
 Deep == EnvInt("DEEP", 0)            \* > 0: only chains of depth Deep, Deep \div 2 with at most one handler
+RetrD == EnvInt("RETRD", 3)          \* chains of depth <= RetrD are also asked for their outcome several times
 PriorD == EnvInt("PRIORD", 3)        \* chains of depth <= PriorD are also run after every kind of earlier computation
 Stale == EnvInt("STALE", 0)          \* non-vacuity switch: 1 = a failed resume() leaves P2 active (TLC then refutes the stack invariants)
 
@@ -42,6 +52,10 @@ Modes == {"pass", "reraise", "new", "catch"}
 Styles == {"plain", "list", "helper"}
 NoTask == 0 - 9
 Priors == {"value", "task_exc", "flush_exc", "resume_raises", "pause_raises", "nonasync"}
+SiteBase == 500                      \* frame of the helper function in which retrieval k is made and caught: SiteBase + k
+RetrSets(o) == IF o = 0
+               THEN {<<"value", "value">>, <<"value", "error">>, <<"error", "value">>, <<"value", "value", "value">>}
+               ELSE {<<"value", "value">>, <<"error", "value">>, <<"value", "yield">>, <<"value", "value", "yield">>}
 P1 == 1001                           \* the tasks of the earlier computation
 P2 == 1002
 
@@ -55,15 +69,19 @@ Raisers(d) == IF Deep = 0 THEN 1..d ELSE {1, d \div 2, d} \cap (1..d)
 
 VARIABLES d, r, mode, sync, style, outer,     \* the chain (chosen in Init)
           prior, phandled,                     \* the earlier computation of the session (chosen in Init)
-          pc, lvl, active, creator, exc, probes, outcome
-vars == <<d, r, mode, sync, style, outer, prior, phandled, pc, lvl, active, creator, exc, probes, outcome>>
-cfgvars == <<d, r, mode, sync, style, outer, prior, phandled>>
+          retr,                                \* how the outcome of the top task is retrieved (chosen in Init)
+          pc, lvl, active, creator, exc, probes, outcome,
+          rk, sights                           \* next retrieval, what every caught retrieval saw
+vars == <<d, r, mode, sync, style, outer, prior, phandled, retr, pc, lvl, active, creator, exc, probes, outcome, rk, sights>>
+cfgvars == <<d, r, mode, sync, style, outer, prior, phandled, retr>>
 
 NoExc == [kind |-> "none", origin |-> 0, tb |-> <<>>]
 
 Init == /\ d \in Depths /\ r \in Raisers(d) /\ mode \in ModeSets(r)
         /\ sync \in {0, 1} /\ style \in (IF Deep = 0 THEN Styles ELSE {"plain"}) /\ outer \in (IF Deep = 0 THEN {0, 1} ELSE {0})
         /\ prior \in (IF Deep = 0 /\ d <= PriorD THEN {"none"} \cup Priors ELSE {"none"})
+        /\ retr \in (IF Deep = 0 /\ d <= RetrD /\ prior = "none" THEN {<<"call">>} \cup RetrSets(outer) ELSE {<<"call">>})
+        /\ rk = 1 /\ sights = <<>>
         /\ phandled \in (IF prior \in {"none", "value"} THEN {"-"} ELSE {"task", "caller"})
         /\ pc = (IF prior = "none" THEN "down" ELSE "prior") /\ lvl = 1 - outer
         /\ active = NoTask
@@ -83,16 +101,16 @@ PriorRun ==        \* P1 runs, creates and awaits P2; P2 runs until it awaits th
   /\ pc = "prior"
   /\ creator' = [creator EXCEPT ![P1] = active, ![P2] = P1]
   /\ active' = NoTask /\ pc' = "prior_flush"
-  /\ UNCHANGED <<cfgvars, lvl, exc, probes, outcome>>
+  /\ UNCHANGED <<cfgvars, lvl, exc, probes, outcome, rk, sights>>
 PriorFlush ==      \* the batch is flushed (or raises); P2 is continued - or fails without running, if resume() raises -
   /\ pc = "prior_flush"                                         \* and P1 gets P2's value or error
   /\ active' = P1 /\ pc' = "prior_up"
-  /\ UNCHANGED <<cfgvars, lvl, creator, exc, probes, outcome>>
+  /\ UNCHANGED <<cfgvars, lvl, creator, exc, probes, outcome, rk, sights>>
 PriorDeliver ==    \* the earlier computation is over, whatever its outcome: nothing is executing
   /\ pc = "prior_up"
   /\ active' = (IF Stale = 1 /\ prior = "resume_raises" THEN P2 ELSE NoTask)
   /\ pc' = "down"
-  /\ UNCHANGED <<cfgvars, lvl, creator, exc, probes, outcome>>
+  /\ UNCHANGED <<cfgvars, lvl, creator, exc, probes, outcome, rk, sights>>
 
 RaiseAt(i) == [kind |-> "E", origin |-> i, tb |-> IF style = "helper" THEN <<i, 0 - 1>> ELSE <<i>>]
 
@@ -102,7 +120,7 @@ Enter == /\ pc = "down" /\ lvl < d
          /\ active' = lvl
          /\ creator' = [Born(lvl) EXCEPT ![lvl + 1] = lvl]        \* created while lvl is executing
          /\ lvl' = lvl + 1
-         /\ UNCHANGED <<cfgvars, pc, exc, outcome>>
+         /\ UNCHANGED <<cfgvars, pc, exc, outcome, rk, sights>>
 
 (* the bottom level: (waits for a batch item if sync = 1,) probes, then raises (r = d) or returns *)
 Bottom == /\ pc = "down" /\ lvl = d
@@ -110,7 +128,7 @@ Bottom == /\ pc = "down" /\ lvl = d
           /\ creator' = Born(d) /\ active' = d
           /\ exc' = IF r = d THEN RaiseAt(d) ELSE NoExc
           /\ pc' = "up" /\ lvl' = d - 1
-          /\ UNCHANGED <<cfgvars, outcome>>
+          /\ UNCHANGED <<cfgvars, outcome, rk, sights>>
 
 (* level lvl >= 1 gets the outcome of the child it awaits *)
 Up == /\ pc = "up" /\ lvl >= 1
@@ -123,24 +141,34 @@ Up == /\ pc = "up" /\ lvl >= 1
                           [] m = "catch" -> NoExc
               /\ probes' = IF m = "pass" THEN probes ELSE AddProbe(creator, lvl, "handler")
       /\ lvl' = lvl - 1 /\ active' = lvl
-      /\ UNCHANGED <<cfgvars, pc, creator, outcome>>
+      /\ UNCHANGED <<cfgvars, pc, creator, outcome, rk, sights>>
 
 (* the outer task (level 0) called level 1 synchronously: a plain Python call, its frame is in front *)
-UpOuter == /\ pc = "up" /\ lvl = 0 /\ outer = 1
+(* a caught retrieval of the top task's stored outcome (the top-level caller: all of them; the outer task: all
+   but the last).  The stored error is not changed by being retrieved. *)
+Caught == IF outer = 0 THEN Len(retr) ELSE Len(retr) - 1
+Sight(k) == [k |-> k, kind |-> retr[k],
+             tb |-> IF exc.kind = "none" THEN <<>>
+                    ELSE IF retr[k] = "error" THEN exc.tb ELSE <<SiteBase + k>> \o exc.tb]
+Retrieve == /\ pc = "up" /\ lvl = 0 /\ retr # <<"call">> /\ rk <= Caught
+            /\ sights' = Append(sights, Sight(rk)) /\ rk' = rk + 1
+            /\ UNCHANGED <<cfgvars, pc, lvl, active, creator, exc, probes, outcome>>
+
+UpOuter == /\ pc = "up" /\ lvl = 0 /\ outer = 1 /\ (retr = <<"call">> \/ rk > Caught)
            /\ exc' = IF exc.kind = "none" THEN exc ELSE [exc EXCEPT !.tb = <<0>> \o exc.tb]
            /\ lvl' = 0 - 1 /\ active' = 0
-           /\ UNCHANGED <<cfgvars, pc, creator, probes, outcome>>
+           /\ UNCHANGED <<cfgvars, pc, creator, probes, outcome, rk, sights>>
 
-Deliver == /\ pc = "up" /\ lvl = 0 - outer
+Deliver == /\ pc = "up" /\ lvl = 0 - outer /\ (outer = 1 \/ retr = <<"call">> \/ rk > Caught)
            /\ outcome' = IF exc.kind = "none" THEN <<"val">> ELSE <<"err", exc.kind, exc.origin, exc.tb>>
            /\ pc' = "done" /\ active' = NoTask
-           /\ UNCHANGED <<cfgvars, lvl, creator, exc, probes>>
+           /\ UNCHANGED <<cfgvars, lvl, creator, exc, probes, rk, sights>>
 
-Next == PriorRun \/ PriorFlush \/ PriorDeliver \/ Enter \/ Bottom \/ Up \/ UpOuter \/ Deliver
+Next == Retrieve \/ PriorRun \/ PriorFlush \/ PriorDeliver \/ Enter \/ Bottom \/ Up \/ UpOuter \/ Deliver
 Spec == Init /\ [][Next]_vars
 
 (* ---- the property, on the model ---- *)
-TaskFrames(tb) == SelectSeq(tb, LAMBDA x : x >= 0)
+TaskFrames(tb) == SelectSeq(tb, LAMBDA x : x >= 0 /\ x < SiteBase)
 (* C18.glue: while an exception is in flight its traceback has exactly one frame per level it has crossed,
    in call order, ending at the raising frame *)
 Glued == exc.kind # "none" =>
@@ -154,10 +182,18 @@ StackIsCreatorChain == \A n \in 1..Len(probes) :
 (* ... and nothing else: no task of an earlier computation, because between computations nothing is executing *)
 OwnTasksOnly == \A n \in 1..Len(probes) : \A j \in 1..Len(probes[n].stack) : probes[n].stack[j] \in (1 - outer)..d
 IdleBetweenComputations == (pc \in {"prior", "done"} \/ (pc = "down" /\ lvl = 1 - outer)) => active = NoTask
+(* every retrieval: its own site, then one frame per task level in call order ending at the raising frame *)
+RetrievalsGlued == \A n \in 1..Len(sights) : LET s == sights[n] IN
+           s.tb # <<>> =>
+             /\ TaskFrames(s.tb) = [j \in 1..exc.origin |-> j]
+             /\ {j \in 1..Len(s.tb) : s.tb[j] >= SiteBase} = (IF s.kind = "error" THEN {} ELSE {1})
+             /\ s.kind # "error" => s.tb[1] = SiteBase + s.k
+             /\ s.tb[Len(s.tb)] = IF style = "helper" /\ exc.kind = "E" THEN 0 - 1 ELSE exc.origin
+AllRetrieved == (pc = "done" /\ retr # <<"call">>) => Len(sights) = Caught
 CaughtMeansValue == pc = "done" => ((outcome[1] = "val") <=> (\E k \in 1..(r - 1) : mode[k] = "catch"))
 EveryLevelProbed == (pc = "done" /\ Deep = 0) => {probes[n].lvl : n \in {m \in 1..Len(probes) : probes[m].at = "entry"}} = (1 - outer)..d
 
 Export == (pc = "done") => PrintT(ToJson([d |-> d, r |-> r, mode |-> mode, sync |-> sync, style |-> style, outer |-> outer,
-                                          prior |-> prior, phandled |-> phandled,
+                                          prior |-> prior, phandled |-> phandled, retr |-> retr, sights |-> sights,
                                           outcome |-> outcome, probes |-> probes]))
 =============================================================================
